@@ -338,6 +338,11 @@ def c02(tier):
     rep = Reporter("C02", ev)
     model_replay("C02", tier, ev, rep, "MC_Curve.tla", f"MC_Curve_basis_{tier}.cfg")
     model_replay("C02", tier, ev, rep, "MC_Curve.tla", "MC_Curve_wide_basis_quick.cfg")
+    # float knots at 2^20 with spans of 2^-10 (dyadic knots and parameters: the float input is the exact input)
+    from .replay import dyadic
+    model_replay_cached("C02", tier, ev, rep, "MC_Curve.tla", "MC_Curve_basis_quick.cfg", "far-float", {},
+                        filt=lambda t: t["d"] == 1 and t["act"]["name"] == "FnBasis" and dyadic(t["act"]["u"]) and
+                        all(dyadic(x) for x in t["pre"]["a"]["U"]))
     driver_big("C02", tier, ev, rep, "basis", 40 if tier == "quick" else 600)
     driver_fn("C02", tier, ev, rep, 60 if tier == "quick" else 1500)
     return finish(ev, rep)
@@ -820,6 +825,9 @@ def c16(tier):
         if "basis" in cfg:
             continue
         model_replay_cached("C16", tier, ev, rep, module, cfg, "huge", cache, stride=4 if tier == "quick" else 1)
+    # "fitting returns ... the mathematically exact result": Bezier fits of degree 6-7 and 13-14 against the closed-form
+    # Bernstein normal equations computed by TLC
+    model_replay("C16", tier, ev, rep, "MC_Curve.tla", "MC_Curve_fitcurve_bezier_quick.cfg", vector=False)
     # plain Python ints for every integral number (knots too): values to 1e-9, whatever the types
     for module, cfg in scen[:6] + [("MC_Curve.tla", "MC_Curve_deriv_quick.cfg")]:
         model_replay_cached("C16", tier, ev, rep, module, cfg, "int-knots", cache, stride=3 if tier == "quick" else 1)
